@@ -64,18 +64,22 @@ CHECKS = {
             "sequences to length 7/9 on Stack, 5/6 on ParserState, plus random long histories); the same run compares the implementation with "
             "a full-copy reference and yields the failing history as replay.",
             "Lean 4 refinement proof (invariant + abstraction function, induction over histories) + exhaustive differential correspondence"),
-    "C10": ("front", "other",
-            "Proved (Lean, the accept + structure half, for source-level grammars of any size and nesting depth with arbitrary trivia - blanks, "
-            "tabs, line breaks, nested block comments, line comments, or none - behind every token): front_roundtrip_text / _trivia: the model "
-            "of scanner + grammar parser accepts every such text and builds exactly the rule table the text denotes (names, modifiers, doc "
-            "lines, ~ tighter than |, n-ary flattening, prefix outside postfix, Group, tags, PEEK slices, bounds, decoded literals; den_* "
-            "theorems). NOT proved: the reject half (nothing outside the meta-grammar is accepted) and two layouts (a final line comment "
-            "without line break, trivia between ^ and its string) - hence level 'other'. Those are decided by the differential search: "
-            "tests/grammars/meta.pest (transcription compared with the file on every run) is run by the executable Lean specification L0 of "
-            "pest's PEG semantics as the syntax oracle, its parse tree is read by a reference denotation, and both are compared with "
-            "Parser.from_grammar on meta-grammar sentences, mutated sentences, the bundled grammars and random token soups; the Lean front-end "
-            "model is compared with the implementation on the same texts (exact rule table / error kind / error start).",
-            "Lean 4 round-trip proof printer → scanner → parser (accept half) + meta-grammar oracle run by the Lean L0 specification + exact differential correspondence"),
+    "C10": ("front", "proof",
+            "Theorem front_exact (Props/C10Exact.lean), for ALL texts: the model of scanner + grammar parser accepts a text and builds the rule "
+            "table r EXACTLY WHEN the text is a layout (GrammarText': the tokens in order, each followed by any trivia - blanks, tabs, line "
+            "breaks, nested block comments, line comments -, literals in any spelling that denotes the value, numbers in any digit string of "
+            "the value, doc comments ended by LF, CR LF or the end of the text) of a source-level grammar g whose pieces are spellable (WF') "
+            "and r is the table g denotes (names, modifiers, doc lines, ~ tighter than |, n-ary flattening, prefix outside postfix, Group, "
+            "tags, PEEK slices, bounds, decoded literals; den_* theorems; den_unique: the text determines the table). Both halves: "
+            "front_roundtrip_text' (accept + structure) and front_accepts_only_grammar_texts (nothing else is accepted; by scanner inversion "
+            "scan_inversion and the parser run on concrete syntax trees parse_ctree). The syntax relation GrammarText' is a Lean definition; "
+            "that it coincides with pest's own meta-grammar is NOT a theorem: it is decided on every run by the differential search - "
+            "tests/grammars/meta.pest (its transcription compared with the file on every run) run by the executable Lean specification L0 of "
+            "pest's PEG semantics as the syntax oracle, its parse tree read by a reference denotation - on meta-grammar sentences, mutated "
+            "sentences, the bundled grammars and random token soups; four open findings where the implementation (and so the relation) "
+            "deviates from the meta-grammar are listed in known_findings.txt and replayed on every run. The front-end model is tied to "
+            "scanner.py / parser.py / unescape.py by exact correspondence (rule table / error kind / error start) on the same texts.",
+            "Lean 4 proof: printer/layout → scanner → parser round trip and its converse (scanner inversion, concrete syntax trees) + meta-grammar oracle run by the Lean L0 specification + exact differential correspondence"),
     "C11": ("front", "proof",
             "Theorems for ALL texts (lists of code points): front_total - the model of Parser.from_grammar(text, optimizer=None) never "
             "returns an exception outcome (IndexError, ValueError, AssertionError, regex error, … are explicit outcomes of the model, proved "
@@ -124,6 +128,20 @@ CHECKS = {
     "C16": ("core", "proof",
             'Theorems parse_shift / gen_parse_shift and no_lookbehind / gen_no_lookbehind (every SOI-free rule table incl. optimizer-made nodes, start rule, input, k <= len(input), fuel): parsing at start_pos = k equals parsing text[k:] at 0 shifted by k - same verdict, trees shifted, end position k further, furthest-failure position shifted (or both unset), same expected/unexpected keys and rule stack; and the result does not depend on the characters before k. Proved for the interpreter model L1 and directly for the generated-code model LG. The run evaluates SOI-freeness through the model on every grammar and its optimized form (evidence hyp:*:soifree). Checked on the implementation in all four modes: parse(r,t,start_pos=k) vs parse(r,t[k:]) shifted, prefix replaced, random k in every correspondence request. Not a theorem: that the optimizer keeps a table SOI-free (evaluated per grammar instead).',
             "Lean 4 simulation proof between the two inputs (ShiftRel/ResRel through every node of L1 and LG); " + T_MODEL),
+    "C17": ("examples", "other",
+            "Calculator half PROVED for all well-formed token lists of any length and nesting (calc_three_agree, calc_total, "
+            "calc_values_agree): the tree the grammar-encoded implementation builds is Good in the sense of C18's binding-power specification "
+            "for every calculator-shaped table whose levels are in the documented order, so by C18 (pratt_complete, good_unique) it is what "
+            "the Pratt parser and the precedence-climbing loop return on their regenerated tables (compared by order, not by number) and what "
+            "the reference evaluator computes. JSON half: PROVED against the specification L0 on the regenerated rule tables of both bundled "
+            "grammars - every RFC 8259 number, string, value and every document with a container at top level, any nesting and whitespace, is "
+            "accepted with exactly the tree that mirrors json.loads (json_accepts, json_accepts_tests). NOT proved: rejection of every proper "
+            "prefix (json_rejects_prefix, full statement in the file), and the step from L0 to the four execution modes for these grammars "
+            "(that is C01-C04 plus C02's hypotheses) - hence level 'other'. Checked on the implementation on every run: generated JSON "
+            "documents and all their proper prefixes in all four modes against json.loads; generated and exhaustive small arithmetic "
+            "expressions through the three calculators against an independent evaluator; the Lean models of the three calculators and of the "
+            "JSON mirror compared with the implementation on the same inputs.",
+            "Lean 4 proofs (calculators via C18's uniqueness theorem; JSON by big-step derivations in L0 on regenerated grammar terms) + regenerated tables + differential search against json.loads and a reference evaluator"),
     "C18": ("pratt", "proof",
             "Theorems for all operator tables and all token streams: the model of the repaired parse_expr consumes every well-formed stream "
             "(pratt_consumes_all), yields the input (pratt_yield), returns a tree satisfying the binding-power specification Good (pratt_good), "
@@ -148,6 +166,8 @@ ENGINES = [
      "kind_free_text": "Lean models lean/PestModel/Front/{Scan,Parse,ErrorContext,Ast,AstTrivia}.lean, Unescape.lean + proofs Props/C10.lean, C11.lean; meta.pest oracle run by the Lean L0 spec; sentence/mutation/soup generators"},
     {"name": "charset", "path": "harness/eng_charset.py", "serves_properties": ["C12"],
      "kind_free_text": "Lean models lean/PestModel/{CharSet,CharClass,Unescape}.lean + proofs Props/C12.lean, C12Escapes.lean; exhaustive code-point sweeps in four modes; eng_escapes.py for the escape clause"},
+    {"name": "examples", "path": "harness/eng_examples.py", "serves_properties": ["C17"],
+     "kind_free_text": "Lean models lean/PestModel/{Calc,Json}.lean + proofs Props/C17.lean; regenerated calculator tables and JSON grammar terms; json.loads and reference-evaluator differential"},
 ]
 
 NOT_YET = "check not integrated yet in this snapshot of /verif (engine under construction; see DESIGN.md §9.1)"
